@@ -23,6 +23,8 @@ def gen_cases(rng, tier, scale):
         cases += gen_matrix(rng, maxchain, rng.randint(1, 3), 12)
     for _ in range((220 if tier == 'quick' else 5000) * scale):          # functions with *args, principal use (Spec: spec_star_outcome)
         cases.append(gen_varargs_case(rng, maxchain))
+    for _ in range((40 if tier == 'quick' else 600) * scale):            # positional-only parameters: implementation only
+        cases.append(gen_posonly_case(rng))
     for _ in range((40 if tier == 'quick' else 1200) * scale):           # shared Parameter objects, calls in sequence
         cases.append(gen_shared(rng, maxchain))
     if tier == 'thorough':
